@@ -300,6 +300,8 @@ def gen_case(ch, params):
             for i in range(len(m.funcs)):
                 if ch.below(3):
                     m.func_names[ni + i] = ch.pick(pool)
+                    if ch.below(4) == 0:
+                        m.func_names[ni + i] += b'%d' % ch.below(3)
             if pool is not DEBUG_NAMES:
                 # debug names matter for functions that are NOT exported: make sure there are some (internal helpers nobody calls
                 # are valid) and that they carry different members of the family
@@ -309,8 +311,6 @@ def gen_case(ch, params):
                 internal = [ni + i for i in range(len(m.funcs)) if ni + i not in exported]
                 for k, fi in enumerate(internal):
                     m.func_names[fi] = pool[(k + ch.below(2)) % len(pool)]
-                    if ch.below(4) == 0:
-                        m.func_names[ni + i] += b'%d' % ch.below(3)
     return mk, m, script, meta
 
 
